@@ -39,34 +39,60 @@ def first_difference(a, b, path="root"):
     return None
 
 
+def layers_of(w, d):
+    """ids of the layers listed below document d"""
+    return [w.idof(x) for x in T.walk_layers(w.objs[d])]
+
+
+def save_signature(w, d, r):
+    """signature + description of a save / reopen failure of document d of world w (None: no failure)"""
+    psd = w.objs[d]
+    label = doc_label(psd)
+    if r[0] == "raises":
+        here = (psd.pil_mode, psd.depth)
+        origins = [w.origin.get(x, here) for x in layers_of(w, d) if isinstance(w.objs[x], T.PixelLayer)]
+        if r[1] == "save" and any(o is None for o in origins) and here != ("RGB", 8):
+            # PixelLayer.frompil(image, None): the library warns that such a layer cannot be converted
+            sig = "C09/save-raises/documentless-pixel-layer-adopted"
+        elif r[1] == "save" and any(o is not None and o[1] != psd.depth for o in origins):
+            sig = "C09/save-raises/cross-depth-adoption"
+        elif r[1] == "save" and psd.pil_mode == "CMYK":
+            sig = "C09/save-raises/cmyk-document"
+        elif r[1] == "save" and psd.depth != 8 and w.recipe[0] != "fixture":
+            sig = "C09/save-raises/pixel-layer-in-deep-document"
+        else:
+            sig = "C09/save-raises/%s-%s/%s" % (r[1], r[2], label)
+        kinds = sorted({T._kind(w.objs[x]) for x in layers_of(w, d) if x != T.BOGUS})
+        return sig, "%s of document %d (%s; node kinds below it: %s) raises %s after the history" % (
+            r[1], d, label, ",".join(kinds), r[2])
+    diff = first_difference(r[1], r[2])
+    if diff:
+        edits = "depth%d" % psd.depth if diff[0] == "layer-count" and psd.depth != 8 else diff[0]
+        sig = "C09/save-drops-edits/%s" % edits if diff[0] == "layer-count" else "C09/save-reopen/%s" % diff[0]
+        return sig, "document %d (%s): %s" % (d, label, diff[1])
+    return None
+
+
 def save_check(ctx, t, fails, where):
     """save + reopen every document of the final world of trace `t` and compare the trees"""
     w = t.world
     for d in w.docs():
         psd = w.objs[d]
         r = T.save_reopen(psd)
-        label = doc_label(psd)
-        ctx.hist("save_reopen", "%s %s" % (label, r[0] if r[0] == "ok" else "raises-%s-%s" % (r[1], r[2])))
-        case = {"recipe": list(w.recipe), "ops": T.ops_to_json(t.ops), "document": d}
-        if r[0] == "raises":
-            deep = psd.depth != 8
-            cmyk = psd.pil_mode == "CMYK"
-            depths = {w.objs[x].depth for x in w.docs()}
-            if r[1] == "save" and cmyk:
-                sig = "C09/save-raises/cmyk-document"
-            elif r[1] == "save" and deep and w.recipe[0] != "fixture":
-                sig = "C09/save-raises/pixel-layer-in-deep-document"
-            elif r[1] == "save" and len(depths) > 1:
-                sig = "C09/save-raises/cross-depth-adoption"
-            else:
-                sig = "C09/save-raises/%s-%s/%s" % (r[1], r[2], label)
-            fails.append((sig, "%s of document %d (%s) raises %s after the history" % (r[1], d, label, r[2]), case))
-            continue
-        diff = first_difference(r[1], r[2])
-        if diff:
-            edits = "depth%d" % psd.depth if diff[0] == "layer-count" and psd.depth != 8 else diff[0]
-            sig = "C09/save-drops-edits/%s" % edits if diff[0] == "layer-count" else "C09/save-reopen/%s" % diff[0]
-            fails.append((sig, "document %d (%s): %s" % (d, label, diff[1]), case))
+        ctx.hist("save_reopen", "%s %s" % (doc_label(psd), r[0] if r[0] == "ok" else "raises-%s-%s" % (r[1], r[2])))
+        f = save_signature(w, d, r)
+        if f:
+            fails.append((f[0], f[1], {"recipe": list(w.recipe), "ops": T.ops_to_json(t.ops), "document": d}))
+
+
+def save_fails_with(recipe, ops, d, sig):
+    """does the history end in a save / reopen failure of document d with this signature? (shrinking)"""
+    t = T.run_history(tuple(recipe), list(ops), check_fresh=False, check_inv=False)
+    w = t.world
+    if t.stopped is not None or t.out_of_model is not None or d >= len(w.objs) or not isinstance(w.objs[d], T.PSDImage):
+        return False
+    f = save_signature(w, d, T.save_reopen(w.objs[d]))
+    return bool(f) and f[0] == sig
 
 
 def argument_forms():
@@ -111,13 +137,19 @@ def run(ctx: core.Run):
     # exhaustive part (nested-list replay + model after every operation)
     depth = 2 if ctx.quick else 3
     for recipe in T.SMALL_TREES:
-        lim = (3000 if recipe[0] == "nest" else None) if ctx.quick else (40000 if recipe[0] != "nest" else 20000)
+        lim = 3000 if ctx.quick else (40000 if recipe[0] != "nest" else 20000)
         for d in range(1, depth + 1):
             hs = T.exhaustive_histories(recipe, d, level=1, limit=lim if d == depth else None, rng=rng)
             for h in hs:
                 traces.append(T.run_history(recipe, h, check_fresh=False, check_inv=False))
             ctx.hist("exhaustive_histories", "%s depth %d" % (recipe[0], d), len(hs))
     n_exh = len(traces)
+    # every single candidate operation on the documents with artboards / shared names; all of them are saved and reopened
+    for recipe in T.NAMED_TREES if not ctx.quick else T.NAMED_TREES[:2]:
+        hs = T.exhaustive_histories(recipe, 1, level=1)
+        for h in hs:
+            traces.append(T.run_history(recipe, h, check_fresh=False, check_inv=False))
+        ctx.hist("exhaustive_histories", "%s depth 1 (all saved)" % recipe[0], len(hs))
     # random walks: every mode x depth, two documents (cross-document moves), fixtures
     recipes = T.walk_recipes()
     n_walks, max_len = (150, 12) if ctx.quick else (1200, 60)
@@ -143,6 +175,18 @@ def run(ctx: core.Run):
                     f["count"] += 1
             continue
         seen.add(sig)
+        if len(case["ops"]) > 1:
+            try:
+                ops = core.ddmin(T.ops_from_json(case["ops"]),
+                                 lambda sub: save_fails_with(case["recipe"], sub, case["document"], sig))
+                t2 = T.run_history(tuple(case["recipe"]), list(ops), check_fresh=False, check_inv=False)
+                f2 = save_signature(t2.world, case["document"], T.save_reopen(t2.world.objs[case["document"]]))
+                if f2 and f2[0] == sig:
+                    case, what = dict(case, ops=T.ops_to_json(ops)), f2[1]
+            except core.Infra:
+                raise
+            except Exception:  # noqa
+                pass
         ctx.fail(sig, what, case, observed=what, expected="the reopened tree has the same names, kinds, nesting, order, "
                  "attributes and channel payloads")
     # arguments the operation language cannot express: one-shot iterables, slices with a step
@@ -156,8 +200,10 @@ def run(ctx: core.Run):
     ctx.rule = ("a case is one (initial tree, operation history); non-trivial = at least one operation; distinct = distinct "
                 "(tree, history) pairs. After EVERY operation the lists of the object graph are compared with a replay on "
                 "plain Python lists and the full dump (lists, parent, document, dirty flag, caches, value / exception) with "
-                "the model. Exhaustive: all histories of <= %d candidate operations on 3 small trees; random: %d walks of "
-                "<= %d operations over %d initial trees (mode x depth matrix, two-document worlds, fixtures). Save + reopen "
+                "the model. Exhaustive: all histories of <= %d candidate operations on 3 small trees, every single candidate "
+                "operation on documents with artboards and with shared names; random: %d walks of "
+                "<= %d operations over %d initial trees (mode x depth matrix, two-document worlds, API-built and fixture "
+                "documents with artboards, fixtures). Save + reopen "
                 "after %d histories: names, kinds, nesting, order, visibility, opacity, blend mode, clipping, rectangle, "
                 "channel payloads." % (depth, n_walks, max_len, len(recipes), len(chosen)))
     ctx.notes += [
